@@ -51,6 +51,30 @@ CLAIMED.update({
         design='DESIGN.md section 4, C18'),
 })
 
+CLAIMED.update({
+    'C01': dict(
+        category='other',
+        technique='CFG must-pass-through / guard analysis, field-ownership rule, reaching definitions, ordering tables by abstract evaluation (ast)',
+        text=("Decides five structural necessary conditions of the statement, each over all paths of the functions involved: (a) under xsd_check, ET.tostring is "
+              "dominated by the final checks, whose missing-children rejection depends only on xsd_check, the container's existence and the container's own verdict, "
+              "and which visit every child; (b) the serialiser iterates the ordered view, which is the leaf-order comprehension without re-ordering or dropping filter; "
+              "(c) only the four owner functions write a leaf's element list and each store of an element is dominated by a name-equality test whose failing edge raises; "
+              "(d) every reaching definition of the leaf that receives a new element is max-filtered; (e) the count-vs-minOccurs/maxOccurs comparisons have the XSD's "
+              "three-cell tables."),
+        note=("Does NOT decide that the matcher's leaf selection, choice commitment, duplication and re-homing yield a word of the content model for every history "
+              "(run-time behaviour; see C02 under not_applicable). A change that breaks only that part is not detected."),
+        design='DESIGN.md section 4, C01'),
+    'C04': dict(
+        category='other',
+        technique='CFG dominance (check-before-store, guards of the rejections), table comparison of attribute names/types/use against the XSD, name-space disjointness',
+        text=("Decides: every key stored into the attribute dictionary has passed _check_attribute, which rejects undeclared names and applies the attribute's simple type; "
+              "in-place edits of the dictionary concern None-valued keys only; the required-attribute rejection is guarded by nothing but complex-typedness, is_required and "
+              "absence from the current attributes; is_required <=> use='required'; attributes are serialised verbatim; schema attribute names are disjoint from everything "
+              "that diverts a dot access; plus the attribute-table rows of C03 for all (element, attribute) pairs (names incl. xml:/xlink: prefixes, types, use)."),
+        note="Does not decide the value half of the iff (C05). Known findings KF-09/10/11/17/18 are genuine defects recorded in known_findings.json.",
+        design='DESIGN.md section 4, C04'),
+})
+
 NOT_APPLICABLE = {
     'C02': "Acceptance and order preservation for every word of 94 regular languages is the run-time behaviour of a heuristic matcher (first-fit leaf choice, choice commitment, duplication) on a mutable tree; no structural rule bounds the reachable tree states, and running the matcher (concretely or symbolically) is a different technique family. The one structural by-product (an unimplemented branch reachable from a valid word) is reported under C19.",
     'C07': "'Every accepted state has a completion' is an existential claim per reachable matcher state; the reachable states are defined by execution histories, not by the shape of the code. The rejection points that exist are covered as ordering/atomicity obligations of C01/C10, which is not a verdict on C07.",
